@@ -870,6 +870,66 @@ def replay_dup_names(p):
     return _res(bad, {'mode': mode, 'rows': n})
 
 
+def replay_remap(p):
+    """Written once; channel A re-pointed to another data set (or replaced by a same-named channel reading it);
+    written again: the second file equals the file of a fresh specification with that mapping."""
+    _quiet()
+    from dliswriter import DLISFile
+    n, chunk, how, kind = p['args'][:4]
+    A = np.arange(n, dtype=np.int32) + 10
+    B = np.arange(n, dtype=np.float64) + 0.5
+    C = np.arange(n, dtype=np.int32) + 7000
+    if kind == 0:
+        src = {'dsA': A, 'dsB': B, 'dsC': C}
+    else:
+        src = np.zeros(n, dtype=[('dsA', A.dtype), ('dsB', B.dtype), ('dsC', C.dtype)])
+        src['dsA'], src['dsB'], src['dsC'] = A, B, C
+
+    def build(ds):
+        df = DLISFile()
+        lf = df.add_logical_file()
+        lf.add_origin('O', file_set_number=1, creation_time='2020/01/01 00:00:00')
+        a = lf.add_channel('A', dataset_name=ds)
+        b = lf.add_channel('B', dataset_name='dsB')
+        fr = lf.add_frame('F', channels=(a, b))
+        return df, lf, a, b, fr
+
+    def wr(df):
+        path = fresh_tmp()
+        try:
+            df.write(path, data=src, input_chunk_size=chunk, output_chunk_size=65536)
+            return open(path, 'rb').read()
+        finally:
+            try:
+                os.remove(path)
+            except OSError:
+                pass
+    bad = ''
+    try:
+        df, lf, a, b, fr = build('dsA')
+        wr(df)
+        if how == 0:
+            a.dataset_name = 'dsC'
+        else:
+            a2 = lf.add_channel('A', dataset_name='dsC')
+            fr.channels.value = [a2, b]
+        second = wr(df)
+        r = strict.parse_file(second)
+        lfv = r['logical_files'][0]
+        got = []
+        for rec, ob, pos in lfv.iflrs:
+            if rec.type == 0:
+                num, q = strict.dec_uvari(rec.body, pos)
+                got.append(struct.unpack('>i', rec.body[q:q + 4])[0])
+        if got != C.tolist():
+            bad = f'after re-pointing channel A to dsC the file holds {got}, expected {C.tolist()}'
+    except strict.StrictError as e:
+        bad = f'strict reader: {e}'
+    except Exception as e:
+        bad = f'second write raised {type(e).__name__}: {e}'
+    return _res(bad, {'rows': n, 'how': how, 'kind': kind})
+
+
 def replay_declared_count(p):
     """Declared length of the record sequence against the records it yields (deterministic), on the real package."""
     _quiet()
